@@ -20,7 +20,7 @@ func racePass(name string) map[string]interface{} {
 		return map[string]interface{}{"ran": false, "why": "race binary not built"}
 	}
 	cmd := exec.Command(bin, "racebody", name)
-	cmd.Env = append(os.Environ(), "VERIF_REALTIME=1", "GORACE=halt_on_error=0 exitcode=0")
+	cmd.Env = append(os.Environ(), "VERIF_REALTIME=1", "VERIF_RACE=1", "GORACE=halt_on_error=0 exitcode=0")
 	out, err := cmd.CombinedOutput()
 	n := strings.Count(string(out), "WARNING: DATA RACE")
 	res := map[string]interface{}{"ran": true, "data_races": n}
@@ -33,6 +33,17 @@ func racePass(name string) map[string]interface{} {
 			s = s[:6000]
 		}
 		res["first_report"] = s
+		// the first repository frame of the first report names the racing site
+		for _, line := range strings.Split(s, "\n") {
+			if i := strings.Index(line, "gca-backend/"); i >= 0 && strings.Contains(line, "(") && !strings.Contains(line, "Verif") {
+				site := strings.TrimSpace(line[i+len("gca-backend/"):])
+				if k := strings.LastIndex(site, "("); k > 0 {
+					site = site[:k]
+				}
+				res["first_site"] = site
+				break
+			}
+		}
 	}
 	return res
 }
